@@ -469,6 +469,9 @@ class ModelsWorld(World):
             # lock step: the same next operation on the source and on its replica must leave them equal again - what a
             # replica recompiles for itself (and the source keeps from before) only shows when it is used
             step["args"]["then"] = self._follow_up(rng, val, r)
+        elif kind in ("copy", "deepcopy") and r.cls == "sim" and rng.random() < 0.4:
+            # the first thing done to a fresh copy is a change of a setting that lives outside the variants
+            self._pending = [{"op": "mutate", "args": {"h": step["out"][0], "m": {"k": "override_tolerance", "values": {rng.choice(["eigenvalue", "equality"]): rng.choice([1e-3, 1e-6, 1e-9])}}}}]
         return step
 
     def _follow_up(self, rng, val, r):
